@@ -1,8 +1,9 @@
 #!/bin/sh
-# Builds the framework from files on disk only (offline).
+# Builds the framework from files on disk only (offline) and runs the engine self-tests.
 set -e
 cd "$(dirname "$0")"
 export GOFLAGS=-mod=mod GOPROXY=off GOSUMDB=off GOTOOLCHAIN=local
-mkdir -p bin
+mkdir -p bin .cache evidence
 (cd engine/instr && go build -o ../../bin/instr .)
+./check selftest
 echo "setup ok"
